@@ -1,6 +1,6 @@
 --------------------------- MODULE TraceCustomise ---------------------------
 (* Recorded histories of the real clients against a recording server (mcpdrive c19) validated against Customise.
-   cfg  hdr before errAt handler path getsse       the client's configuration; a new history starts
+   cfg  hdr before errAt handler path getsse latesid    the client's configuration; a new history starts
    op   op res reqs                          one operation: how it ended and the requests the server received,
                                              each as a record [kind, path, via, hdr, sid, nb, ctx]
    The operation must be enabled and must put exactly these records on the wire, with this result.       *)
@@ -13,7 +13,7 @@ Ev == Trace[l]
 IsEvent(e) == l <= Len(Trace) /\ Ev.e = e /\ l' = l + 1
 
 TCfg == /\ IsEvent("cfg")
-        /\ hdr' = Ev.hdr /\ before' = Ev.before /\ errAt' = Ev.errAt /\ handler' = Ev.handler /\ path' = Ev.path /\ getsse' = Ev.getsse
+        /\ hdr' = Ev.hdr /\ before' = Ev.before /\ errAt' = Ev.errAt /\ handler' = Ev.handler /\ path' = Ev.path /\ getsse' = Ev.getsse /\ latesid' = Ev.latesid
         /\ sess' = FALSE /\ inited' = FALSE /\ stream' = FALSE /\ nops' = 0 /\ over' = FALSE /\ wire' = {} /\ res' = "-"
 
 Step(op) == CASE op = "initialize" -> Initialize
